@@ -34,7 +34,7 @@ EXTRA_MD = [
     # a realistic multi-line body: two if-blocks, so the closing brace line (and a statement) repeat
     {"metadata_type": "inject_code", "name": "blkA", "body_includes": ["c02_inc.h"], "private_members": ["int m_c02 = 0;", "int m_c02b = 0;"],
      "ctor_lines": ["if (m_c02 > 5) {", "m_c02 = 0;", "}", "if (m_c02b > 5) {", "m_c02b = 0;", "}"], "initialize_lines": ["m_c02 += 1;", "m_c02b += 1;", "m_c02 += 1;"]},
-    {"metadata_type": "add_cpp_function", "name": "C02F", "include_files": ["cmath"], "arguments": ["x"], "code": ["double t = x;", "auto result = std::sqrt(t * t) + 1.0;"], "return_type": "double"},
+    {"metadata_type": "add_cpp_function", "name": "C02F", "include_files": ["cmath"], "arguments": ["x"], "code": ["double t = x;\n", "auto result = std::sqrt(t * t) +\n      1.0;"], "return_type": "double"},  # a line break inside a statement, and one after it
     {"metadata_type": "add_job_script", "name": "c02js", "script": ["# c02 job script"], "depends_on": []},
 ]
 
@@ -186,6 +186,16 @@ def run(ctx: Ctx) -> int:
                 continue
             extra = [EXTRA_MD[0]] if backend == "atlas" and i % 5 == 0 else []
             cases.append(diff.Case(backend, t, evgen.gen_events(s, ctx.rng("gt", backend, i), 3), diff.members_used(s, t) + extra, tag={"features": {"guard_template": 2, f"t{i}": 1}}))
+    # a member with a declared tree type (double stored as float) at every nesting depth: scratch vectors, branch variables
+    # and the casts between them have to agree
+    for backend in sch.BACKENDS:
+        s = sch.fixed(backend)
+        C = s["main"]["coll"]
+        for i, t in enumerate([f"ds.Select(lambda e: e.{C}('A').Select(lambda j: j.hits().Select(lambda h: j.ttype())))",
+                               f"ds.Select(lambda e: e.{C}('A').Select(lambda j: j.trkPts().Select(lambda t: j.ttype())))",
+                               f"ds.Select(lambda e: (e.{C}('A').Select(lambda j: j.ttype()), e.{C}('A').Select(lambda j: j.tracks().Select(lambda t: j.ttype()))))",
+                               f"ds.SelectMany(lambda e: e.{C}('A')).Select(lambda j: (j.ttype(), j.hits().Select(lambda h: j.ttype())))"]):
+            cases.append(diff.Case(backend, t, evgen.gen_events(s, ctx.rng("tt", backend, i), 3), diff.members_used(s, t), tag={"features": {"tree_type_nesting": 2, f"t{i}": 1}}))
     trs = eng.translate(cases, monitors=["vf.props.c02:name_monitor"])
     for c in cases:
         eng.model(c.backend)
